@@ -275,7 +275,9 @@ def check(suite: Suite, tier: str, seed: int, replay: str | None = None, budget_
         b = suite.classify(c, impl_out[i])
         hist[b] = hist.get(b, 0) + 1
         k = suite.nontrivial(c, impl_out[i])
-        if k is not None:
+        if isinstance(k, (list, tuple, set)):
+            nontrivial.update(k)
+        elif k is not None:
             nontrivial.add(k)
         if model_out is not None and model_out[i] != impl_out[i]:
             report["disagreements"].append({"case": c, "line": lines[i], "impl": impl_out[i], "model": model_out[i]})
